@@ -10,6 +10,9 @@ type Overrides struct {
 	RndICC    []byte
 	KICC      []byte
 	PaceNonce []byte
+	// CAMTweak makes the chip encrypt a well-formed but wrong chip-authentication-data scalar under the session key:
+	// "negate" (n - CA_IC: maps to the point with the same x-coordinate), "plus-one", "double"
+	CAMTweak string
 }
 
 var _ = bytes.Equal
